@@ -285,3 +285,43 @@ def naf_invariant(F, widths=(5, 6, 7, 8)):
                                                "current bit and digit arm (%d cases, linear identities over the remaining input bits)" % cases)
         except Exception as e:
             yield inst, f, False, "analysis failed: %r" % (e,)
+
+
+
+def int_conversions(F):
+    """yield (instance, fn, ok|None, msg): `Scalar::from(x: uN)` in the bit-provenance domain: output byte j carries input bits 8j..8j+7 for j < N/8 and is zero above
+    (so the value is x < 2^128 < l and the bytes are canonical).  None = outside the domain."""
+    for f in F.fns.values():
+        m = re.search(r"scalar::Scalar as core::convert::From<u(8|16|32|64|128)>>::from$", f["path"])
+        if not m or "mir" not in f:
+            continue
+        w = int(m.group(1))
+        inst = "From<u%d>" % w
+        try:
+            ret, ip, root = B.run(F, f, [B.bv([("b", k) for k in range(w)])])
+        except Exception as e:
+            yield inst, f, None, "analysis failed: %r" % (e,)
+            continue
+        v = ret
+        while v is not None and v[0] == "st" and len(v[1]) == 1:
+            v = v[1][0]
+        if v is None or v[0] != "arr" or len(v[1]) != 32:
+            yield inst, f, None, "the result is not a 32-byte array in the domain"
+            continue
+        bad = None
+        unknown = False
+        for j, x in enumerate(v[1]):
+            xb = B.as_bv(x, 8) if x[0] in ("bv", "i") else None
+            if xb is None:
+                unknown = True
+                break
+            want = [("b", 8 * j + k) for k in range(8)] if 8 * j < w else [0] * 8
+            if list(xb[1]) != want:
+                bad = "output byte %d is %s, expected %s" % (j, list(xb[1]), "input bits %d..%d" % (8 * j, 8 * j + 7) if 8 * j < w else "zero")
+                break
+        if unknown:
+            yield inst, f, None, "an output byte is outside the domain"
+        elif bad:
+            yield inst, f, False, bad
+        else:
+            yield inst, f, True, "the 32 bytes are the little-endian bytes of the %d-bit argument followed by zeros" % w
